@@ -272,3 +272,39 @@ package db
 //@   modifies colSaves
 //@ func (*collection).dropIndex
 //@   modifies colSaves
+//@
+//@ // ===== C10: the access-control system is consulted for every request, except for the node's own
+//@ // identity, and that exception needs both identities to be present and equal
+//@ extern (identity.Identity).DID(i) -> (d)
+//@   pure
+//@   nodefault
+//@ extern (immutable.Option[dac.DocumentACP]).HasValue(o) -> (b)
+//@   pure
+//@   nodefault
+//@ extern (immutable.Option[dac.DocumentACP]).Value(o) -> (v)
+//@   pure
+//@   nodefault
+//@ extern permission.CheckAccessOfDocOnCollectionWithACP(ctx, identity, acp, col, perm, docID) -> (ok, e)
+//@ func (*collection).checkAccessOfDocWithACP -> (ok, err)
+//@   ensures res(Option.HasValue, 1, 0) && ok && err == nil ==> (res(Option.HasValue, 2, 0) && res(Option.HasValue, 3, 0) && res(DID, 1, 0) == res(DID, 2, 0)) || res(CheckAccessOfDocOnCollectionWithACP, 1, 0)
+//@   assert before call#1 CheckAccessOfDocOnCollectionWithACP: arg4 == resourcePermission && arg5 == docID && arg1 == res(FromContext, 2, 0)
+//@   tags C10
+//@ apply ErrFlow: (*collection).checkAccessOfDocWithACP
+//@
+//@ // ===== C19: a version switch deactivates a *different* version than the one it activates ==========
+//@ func (*DB).setActiveSchemaVersion
+//@   assert before call#2 SaveCollection: arg1.VersionID != res(GetCollectionByID, 1, 0).VersionID
+//@   assert before call#1 SaveCollection: !res(GetCollectionByID, 1, 0).IsActive
+//@   tags C19
+//@ // ===== C20/C19: the notification names the collection (root) the subscribers and replicators are keyed by
+//@ extern (*db.collection).Version(c) -> (v)
+//@   pure
+//@   nodefault
+//@ func (*collection).applyDelete
+//@   assert before call#1 OnSuccess: updateEvent.CollectionID == res(Version, 1, 0).CollectionID
+//@   assert before call#2 OnSuccess: updateEvent.CollectionID == res(Version, 1, 0).CollectionID
+//@   tags C20 C19
+//@ func (*collection).save
+//@   assert before call#2 OnSuccess: updateEvent.CollectionID == res(Version, 1, 0).CollectionID && updateEvent.DocID == res(DocID.String, 1, 0)
+//@   assert before call#4 OnSuccess: updateEvent.CollectionID == res(Version, 1, 0).CollectionID
+//@   tags C20 C19
